@@ -214,21 +214,26 @@ theorem neutral_all (cfg : ECfg) : ∀ f,
             intro _ a s' h; cases h; rfl
         · refine neutral_bind _ _ (neutral_enVal _ _ _) (fun v => ?_)
           split
-          · split
+          · rename_i tid name _
+            split
             · exact neutral_unsupported _
             · rename_i body _
-              exact neutral_wrap (eval cfg [] f body) (macroEnter body) macroLeave macroRaise (fun _ _ => rfl)
+              exact neutral_wrap (eval cfg [] f body) (macroEnter tid body) macroLeave macroRaise (fun _ _ => rfl)
           · exact neutral_unsupported _
       | useInternal name =>
         simp only [eval]
         split
         · exact neutral_unsupported _
-        · split
-          · exact neutral_unsupported _
-          · rename_i body _
-            exact neutral_wrap (eval cfg [] f body) (fun s => macroEnter body { s with x := { s.x with token := none } })
+        · rename_i nm
+          refine ⟨fun s hs a s' h => ?_⟩
+          cases hb : lookupAssoc (cfg.macrosOf s.env.topFrame.tid) nm with
+          | none => simp [hb] at h
+          | some body =>
+            have hw := (neutral_wrap (eval cfg [] f body) (fun s => macroEnter s.env.topFrame.tid body { s with x := { s.x with token := none } })
               (fun s s' => macroLeave { s with x := { s.x with token := none } } s')
-              (fun s s' => macroRaise { s with x := { s.x with token := none } } s') (fun _ _ => rfl)
+              (fun s s' => macroRaise { s with x := { s.x with token := none } } s') (fun _ _ => rfl)).at_ s hs a s'
+            simp only [hb] at h
+            exact hw h
       | codeBlock src => simp only [eval]; exact neutral_unsupported _
     · intro al ns hns
       cases ns with
